@@ -35,6 +35,10 @@ TABLES = {"s1.t": ("s1", "t", "CREATE TABLE s1.t (a int, b varchar(5), c int);")
           "S3.T": ("S3", "T", 'CREATE TABLE "S3"."T" (a int, b varchar(5), c int);'),
           "u": (None, "u", "CREATE TABLE u (a int, b varchar(5), c int);")}
 TKEYS = list(TABLES)
+# wave 7: tables created with a three-part (project.dataset.table) name and addressed by dataset.table; not part of the default table set
+TABLES["acme.sales.o"] = ("sales", "o", "CREATE TABLE acme.sales.o (a int, b varchar(5), c int);")
+TABLES["acme.archive.o"] = ("archive", "o", "CREATE TABLE acme.archive.o (a int, b varchar(5), c int);")
+TABLES["staging.o"] = ("staging", "o", "CREATE TABLE staging.o (a int, b varchar(5), c int);")
 SPELL = ["asis", "up", "low", "dq", "br", "bt"]
 KINDS = {
     "add": "ALTER TABLE {T} ADD d int;",
@@ -181,6 +185,22 @@ def gen_cases(tier):
             cases.append({"tabs": ["s1.t", "t", "u"], "ops": [x + ["asis", "asis", "asis"] for x in tri]})
         for quad in itertools.product(s3q, repeat=4):
             cases.append({"tabs": ["s1.t", "t"], "ops": [x + ["asis", "asis", "asis"] for x in quad]})
+    # three-part names: every kind aimed at each of the three same-named tables by its dataset.table name, in sql / bigquery (all spellings) and
+    # every other mode (as written); every ordered pair of kinds on the first two in bigquery mode
+    P3 = ["acme.sales.o", "acme.archive.o", "staging.o"]
+    for tgt in P3:
+        for k in KINDS:
+            for m in MODES:
+                for hs, ht in (("asis", "asis"), ("up", "low"), ("bt", "bt"), ("dq", "asis")):
+                    cases.append({"tabs": P3, "ops": [[k, tgt, hs, ht, "asis"]], "mode": m})
+            for m in OTHER_MODES:
+                cases.append({"tabs": P3, "ops": [[k, tgt, "asis", "asis", "asis"]], "mode": m})
+    for ka, kb in itertools.product([k for k in KINDS if k not in KF_KINDS], repeat=2):
+        cases.append({"tabs": P3, "ops": [[ka, P3[0], "asis", "asis", "asis"], [kb, P3[1], "asis", "asis", "asis"]], "mode": "bigquery"})
+    for und in ("acme.o", "sales.zz", "other.o"):
+        for k in KINDS:
+            for m in MODES:
+                cases.append({"tabs": P3, "ops": [[k, und, "asis", "asis", "asis"]], "undefined": True, "mode": m})
     return cases + scale_cases(tier == "thorough")
 
 
@@ -192,6 +212,14 @@ S_OPS = ["add", "uq", "def", "idx", "rename", "fk", "mod", "drop", "chk"]
 
 def scale_cases(deep):
     out = []
+    # names that share a prefix of every length 1..140 (thorough ..300) and differ only after it, as table / schema / unqualified name
+    for L in range(1, (300 if deep else 140) + 1):
+        for part in ("table", "schema", "bare"):
+            out.append({"scale": True, "part": part, "L": L, "ops": ["add", "uq", "idx", "drop"] if L % 2 else ["idx", "add", "drop", "uq"], "N": 3})
+            out.append({"scale": True, "part": part, "L": L, "ops": [], "und": ("add", "idx", "uq")[L % 3], "N": 3})
+    # ADD DEFAULT n FOR col with every digit count 1..50
+    for k in range(1, 51):
+        out.append({"scale": True, "part": "table", "L": 3, "ops": ["def", "def"], "digits": k, "N": 3})
     for L in range(1, (96 if deep else 40) + 1):
         for (N, M) in ((3, 3), (12, 12), (30, 4), (4, 24)):
             for off in ((0, 1, 2, 3, 4, 5, 6, 7, 8) if (deep or L <= 12) else (0, 4)):
@@ -199,8 +227,47 @@ def scale_cases(deep):
     return out
 
 
+def twin_script(case):
+    """three tables whose (schema or table) names share their first L characters and differ only after them; statement i of 6 addresses twin
+    (i mod 2); a 7th statement names an undefined third twin when case['und']"""
+    L, part = case["L"], case["part"]
+    stem = ("orders_partition_" + "abcdefghij_" * 40)[:L]
+    nmx = [stem + sfx for sfx in ("_01", "_02", "_03")]
+    names = [("%s.t" % n if part == "schema" else "s.%s" % n if part == "table" else n) for n in nmx]
+    base = ["CREATE TABLE %s (c0 int, c1 varchar(2), c2 int);" % n for n in names[:2]] + ["CREATE TABLE other (c0 int);"]
+    models = [{"cols": [["c0", None, None, False, "int"], ["c1", 2, None, False, "varchar"], ["c2", None, None, False, "int"]], "alter": {}, "index": []} for _ in range(2)]
+    models.append({"cols": [["c0", None, None, False, "int"]], "alter": {}, "index": []})
+    stm = []
+    for i, op in enumerate(case["ops"]):
+        m, T = models[i % 2], names[i % 2]
+        cols, A = m["cols"], m["alter"]
+        if op == "add":
+            stm.append("ALTER TABLE %s ADD x%d int;" % (T, i))
+            cols.append(["x%d" % i, None, None, False, "int"])
+        elif op == "drop":
+            stm.append("ALTER TABLE %s DROP COLUMN c2;" % T)
+            m["cols"] = [c for c in cols if c[0] != "c2"]
+        elif op == "uq":
+            stm.append("ALTER TABLE %s ADD CONSTRAINT u%d UNIQUE (c0);" % (T, i))
+            A.setdefault("uniques", []).append({"constraint_name": "u%d" % i, "columns": ["c0"]})
+            cols[0][3] = True
+        elif op == "idx":
+            stm.append("CREATE INDEX ix%d ON %s (c0 DESC, c1);" % (i, T))
+            m["index"].append({"index_name": "ix%d" % i, "unique": False, "columns": ["c0", "c1"], "orders": ["DESC", "ASC"]})
+        elif op == "def":
+            v = ("9182736450" * 6)[:case.get("digits", 1)]
+            stm.append("ALTER TABLE %s ADD CONSTRAINT d%d DEFAULT %s FOR c0;" % (T, i, v))
+            A.setdefault("defaults", []).append({"constraint_name": "d%d" % i, "columns": ["c0"], "value": v})
+            cols[0][2] = v
+    if case.get("und"):
+        stm = [{"add": "ALTER TABLE %s ADD x int;", "idx": "CREATE INDEX ixu ON %s (c0);", "uq": "ALTER TABLE %s ADD UNIQUE (c0);"}[case["und"]] % names[2]]
+    return "\n".join(base + stm), models, "\n".join(base)
+
+
 def scale_script(case):
     """-> (ddl, per-table models, base ddl)"""
+    if "part" in case:
+        return twin_script(case)
     N, M, L, off = case["N"], case["M"], case["L"], case["off"]
     names = [("s%d." % (i % 3) if i % 2 else "") + "t%d" % i for i in range(N)]
     base = ["CREATE TABLE %s (%s);" % (nmx, ", ".join("c%d %s" % (j, "varchar(%d)" % (j + 1) if j % 2 else "int") for j in range(M))) for nmx in names]
@@ -252,15 +319,18 @@ def scale_script(case):
 def evaluate_scale(case):
     ddl, models, base = scale_script(case)
     r0, r = run_ddl(base), run_ddl(ddl)
+    if case.get("und"):
+        D = [] if r[0] == "exc" else [diff("statement naming an undefined table", "undefined-target-no-error", "an exception", short(r[1], 200))]
+        return {"diffs": D, "nontrivial": True, "outcome": "undef:" + r[0], "states": 1, "transitions": 1, "traces": 1}
     if r[0] != "ok" or r0[0] != "ok":
-        return {"diffs": [diff("scale script", "raises", "result", (r if r[0] != "ok" else r0)[1:3])], "outcome": "exc", "states": 1, "transitions": case["L"], "traces": 1}
+        return {"diffs": [diff("scale script", "raises", "result", (r if r[0] != "ok" else r0)[1:3])], "outcome": "exc", "states": 1, "transitions": 1, "traces": 1}
     res, res0 = r[1], r0[1]
     if len(res) != case["N"] or not all(is_table(e) for e in res):
         return {"diffs": [diff("entities", "entity-count", case["N"], short(res, 200))], "outcome": "count"}
     diffs = []
     empty = {"alter": {}, "index": []}
     for i, m in enumerate(models):
-        if m["alter"] == {} and m["index"] == [] and [c[0] for c in m["cols"]] == ["c%d" % j for j in range(case["M"])] and not any(c[1] and c[1] >= 100 for c in m["cols"]):
+        if m["alter"] == {} and m["index"] == [] and norm_obs(observe(res0[i]))["cols"] == norm_obs(m)["cols"]:
             if res[i] != res0[i]:
                 diffs.append(diff("table %d (not addressed)" % i, "other-table-changed", short(res0[i], 200), short(res[i], 200)))
             continue
@@ -271,7 +341,7 @@ def evaluate_scale(case):
             if got[part] != want[part]:
                 diffs.append(diff("table %d %s" % (i, part), "effect-differs:" + part, short(want[part], 400), short(got[part], 400)))
                 break
-    return {"diffs": diffs, "nontrivial": True, "outcome": "scale:%d" % (case["L"] // 8), "states": case["L"] + 1, "transitions": case["L"], "traces": 1}
+    return {"diffs": diffs, "nontrivial": True, "outcome": "scale:%d" % (case["L"] // 8), "states": len(case.get("ops", [])) or case["L"] + 1, "transitions": len(case.get("ops", [])) or case["L"], "traces": 1}
 
 
 # ------------------------------------------------------------------ reference model
